@@ -120,7 +120,13 @@ def make_case(rc):
 
 def gen_recipe(rng):
     ntitles = rng.choice([1, 2, 3, 4, 6, 6])
-    own, text, x, area = gen_ref(rng, ntitles)
+    while True:
+        own, text, x, area = gen_ref(rng, ntitles)
+        sname, c1, r1, c2, r2 = x
+        # the formula sits at H20 of sheet `own`: a reference that contains that very cell would be a circular one (C03's subject)
+        if (sname is None or sname == TITLES[own]) and c1 <= 8 <= c2 and (r1 is None or r1 <= 20 <= r2):
+            continue
+        break
     return {'ntitles': ntitles, 'own': own, 'text': text, 'x': list(x), 'area': area, 'wrap': rng.choice(WRAP), 'dup': rng.random() < 0.3}
 
 
@@ -198,8 +204,12 @@ def pipeline_cases(R):
     path = os.path.join(d, 'pipe_%d.xlsx' % os.getpid())
     wb.save(path)
     src = I.Parser().set_excel_file_path(path).disable_safety_check().get_translation()
-    e = I.executor(I.load(src))
+    cls = I.load(src)
+    e = I.executor(cls)
+    other = I.executor(cls)                       # another executor of the SAME class object, with its own overrides, read in between
+    other.set_cells([I.Cell('Data', 'A', '1', 5000), I.Cell('Data', 'B', '4', 8000), I.Cell('Data', 'F', '1', 70000)])
     for i, (f, (kind, want)) in enumerate(checks):
+        I.outcome(lambda: other.get_cell(I.Cell(0, 0, i)).value)
         R.count(('pipeline', f), True)
         got = I.outcome(lambda: e.get_cell(I.Cell(0, 0, i)).value)
         if kind == 'cell':
